@@ -629,23 +629,58 @@ class TextIOWrapper(IOBase):
             self._eof = True
             return mkstr(out)
         while len(self._chars) < size and not self._eof:
-            data = self.buffer.read1(self._CHUNK)
-            items = _items_of(data)
-            if not items:
-                self._eof = True
-                self._chars.extend(self._translate([], True))
+            if not self._more():
                 break
-            if self._encoding.replace("-", "_").lower() not in ("ascii", "us_ascii", "latin_1", "latin1"):
-                raise Unsupported("incremental decoding of a multi-byte codec")
-            self._chars.extend(self._translate(_cps_of(decode(items, self._encoding, self._errors)), False))
         out, self._chars = self._chars[:size], self._chars[size:]
         return mkstr(out)
 
-    def readline(self, *a):
-        raise Unsupported("TextIOWrapper.readline")
+    def _more(self):
+        """decode one more chunk into _chars; False at end of file"""
+        from ..symstr import decode, _cps_of
+        if self._eof:
+            return False
+        data = self.buffer.read1(self._CHUNK)
+        items = _items_of(data)
+        if not items:
+            self._eof = True
+            self._chars.extend(self._translate([], True))
+            return False
+        if self._encoding.replace("-", "_").lower() not in ("ascii", "us_ascii", "latin_1", "latin1"):
+            raise Unsupported("incremental decoding of a multi-byte codec")
+        self._chars.extend(self._translate(_cps_of(decode(items, self._encoding, self._errors)), False))
+        return True
+
+    def readline(self, size=-1):
+        if self.closed:
+            raise ValueError("I/O operation on closed file.")
+        from ..symstr import mkstr
+        if size is not None and size >= 0:
+            raise Unsupported("TextIOWrapper.readline(size)")
+        if self._chars is None:
+            self._chars = []
+        scanned = 0
+        while True:
+            chars = self._chars
+            for i in range(scanned, len(chars)):
+                if chars[i] == 10:
+                    line, self._chars = chars[:i + 1], chars[i + 1:]
+                    return mkstr(line)
+            scanned = len(chars)
+            if not self._more():
+                line, self._chars = self._chars, []
+                return mkstr(line)
 
     def __iter__(self):
-        raise Unsupported("TextIOWrapper iteration")
+        return self
+
+    def __next__(self):
+        line = self.readline()
+        if not line:
+            raise StopIteration
+        return line
+
+    def readlines(self, hint=-1):
+        return list(self)
 
     def detach(self):
         raise Unsupported("TextIOWrapper.detach")
